@@ -201,6 +201,7 @@ pub fn record(args: &[String]) {
             w.emit(&json!({"i": seq, "ev": "tick", "d": a}));
             clock += a;
             pin(clock.div_euclid(86_400), clock.rem_euclid(86_400));
+            watch(|| json!({"cron_history": {"i": seq, "expr": expr, "clock": [clock.div_euclid(86_400), clock.rem_euclid(86_400)]}}).to_string());
             // always a record: {"fire": [dn, minute of day]} | {"odd": ..} | {"none": true} | {"panic": ..}
             let r = match guarded(|| sched.next().map(|d| proj_fire(&d))) {
                 Outcome::Ok(Some(v)) if v.is_array() => json!({"fire": v}),
@@ -208,6 +209,7 @@ pub fn record(args: &[String]) {
                 Outcome::Ok(None) => json!({"none": true}),
                 Outcome::Panic(msg) => json!({"panic": chars(&msg)}),
             };
+            unwatch();
             seq += 1;
             w.emit(&json!({"i": seq, "ev": "next", "res": r}));
         }
